@@ -1429,3 +1429,21 @@ GENERATORS.insert(0, ("C11.delta.", _ellipse_r_delta))
 GENERATORS.insert(0, ("C09.delta.dw_changes", _ellipse_r_delta))
 GENERATORS.insert(0, ("C09.delta.dh_changes", _ellipse_r_delta))
 GENERATORS.insert(0, ("C09.delta.both", _ellipse_r_delta))
+
+
+def _containment_edges(repo, ob, failure):
+    """inside= areas without a common point is an error (never an element drawn elsewhere); margin never reaches the output"""
+    d1 = '<svg><rect id="a" xy="0" wh="20 10"/><rect id="b" xy="50 30" wh="20 10"/><rect inside="#a #b" margin="1" wh="20 10"/></svg>'
+    r = run_svgdx(repo, d1, args=("--no-auto-styles",))
+    if r["rc"] == 0:
+        return {"input": d1, "args": ["--no-auto-styles"], "observed": r["out"].strip()[-160:], "expected": "an error: #a and #b have no point in common"}
+    d2 = '<svg><defaults><rect margin="2"/></defaults><rect id="a" wh="10 20"/><rect surround="#a"/></svg>'
+    r = run_svgdx(repo, d2, args=("--no-auto-styles",))
+    if r["rc"] == 0 and "margin=" in r["out"]:
+        return {"input": d2, "args": ["--no-auto-styles"], "observed": r["out"].strip()[-200:], "expected": "no margin attribute in the output"}
+    return None
+
+
+GENERATORS.insert(0, ("C12.attrs.removed", _containment_edges))
+GENERATORS.insert(0, ("C12.inside.empty", _containment_edges))
+GENERATORS.insert(0, ("C12.surround.nothing", _containment_edges))
